@@ -15,7 +15,7 @@ def _shapes(ctx):
     # high-orbital boundary families (small electron / hole counts keep tables small)
     hi = [31, 32, 33, 63, 64] if ctx.tier == "quick" else [30, 31, 32, 33, 34, 62, 63, 64]
     for norb in hi:
-        for nele in ([0, 1, norb - 1, norb] if ctx.tier == "quick" else [0, 1, 2, norb - 1, norb]):
+        for nele in ([0, 1, norb - 1, norb] + ([2] if norb in (32, 64) else []) if ctx.tier == "quick" else [0, 1, 2, norb - 1, norb]):
             yield norb, nele
 
 
@@ -160,7 +160,8 @@ def run(ctx):
                     ctx.disagree("maps:make_mapping_each", f"make_mapping_each dag={dag} undag={undag} at {tag}",
                                  {"kind": "mapeach", "dag": dag, "undag": undag, **tag})
         # cross-sector maps
-        if 1 <= norb <= 9 and nele >= 1:
+        if (1 <= norb <= 9 and nele >= 1) or (norb >= 30 and nele == 2):
+            # (at 30 and more orbitals: two electrons, links over one and two electrons - positions beyond 31 bits)
             for dn in ((1, 2, 3, 4) if norb <= 7 else (1, 2)):
                 if nele - dn < 0:
                     continue
